@@ -908,6 +908,10 @@ CHOICE_decode_uper(const asn_codec_ctx_t *opt_codec_ctx,
 	}
 	ASN_DEBUG("Discovered CHOICE %s encodes %s", td->name, elm->name);
 
+	if(!elm->type->op->uper_decoder) {
+		ASN_DEBUG("PER decoder is not defined for type %s", elm->type->name);
+		ASN__DECODE_FAILED;
+	}
 	if(ct && ct->range_bits >= 0) {
 		rv = elm->type->op->uper_decoder(opt_codec_ctx, elm->type,
 			elm->encoding_constraints.per_constraints, memb_ptr2, pd);
@@ -996,6 +1000,10 @@ CHOICE_encode_uper(const asn_TYPE_descriptor_t *td,
         memb_ptr = (const char *)sptr + elm->memb_offset;
     }
 
+    if(!elm->type->op->uper_encoder) {
+        ASN_DEBUG("PER encoder is not defined for type %s", elm->type->name);
+        ASN__ENCODE_FAILED;
+    }
     if(ct && ct->range_bits >= 0) {
         if(per_put_few_bits(po, present_enc, ct->range_bits))
             ASN__ENCODE_FAILED;
